@@ -19,6 +19,10 @@ pub fn oracle(spec: &RespSpec, case: &RespCase, out: &RespOut) -> Result<(), (St
             [Ev::Ok(bs)] => Err((format!("text-mismatch-{}", fr), format!("text_utf8() returned {} bytes for a {}-byte payload and it is not its lossy UTF-8 decoding", bs.len(), payload.len()))),
             other => Err((format!("text-error-{}", fr), format!("text_utf8() gave {:?}", other.first().map(|e| e.to_string())))),
         },
+        Reads::Drain(how) if *how == crate::resp::DRAIN_ERR_FOR_STATUS && !(200..300).contains(&spec.status) => match out.events.as_slice() {
+            [Ev::Err(k)] if *k == format!("status{}", spec.status) => Ok(()),
+            other => Err((format!("error-for-status-{}", fr), format!("error_for_status() on status {} gave {:?}", spec.status, other.first().map(|e| e.to_string())))),
+        },
         Reads::Drain(_) => match out.events.as_slice() {
             [Ev::Ok(bs)] if *bs == payload => Ok(()),
             [Ev::Ok(bs)] => Err((format!("bytes-mismatch-{}", fr), format!("bytes() returned {} bytes, payload has {}", bs.len(), payload.len()))),
@@ -78,7 +82,12 @@ pub fn generate(seed: u64, tier: &str, sink: &mut Sink) {
         let (reads, rname) = if rng.chance(1, 12) {
             (Reads::Text(8192), "text_utf8()")
         } else if rng.chance(1, 5) {
-            (Reads::Drain(8192), "bytes()")
+            match rng.below(4) {
+                0 => (Reads::Drain(crate::resp::DRAIN_WRITE_TO), "write_to()"),
+                1 => (Reads::Drain(crate::resp::DRAIN_SPLIT), "split()+read_to_end"),
+                2 => (Reads::Drain(crate::resp::DRAIN_ERR_FOR_STATUS), "error_for_status()+bytes()"),
+                _ => (Reads::Drain(crate::resp::DRAIN_BYTES), "bytes()"),
+            }
         } else {
             let (ns, name) = read_schedule(&mut rng, payload_len, pieces(&spec, segs.len(), max_buf));
             (Reads::Sizes(ns), name)
